@@ -103,7 +103,8 @@ def run(tier, rep):
         seen_sig[sig] = seen_sig.get(sig, 0) + 1
         if seen_sig[sig] <= 2:
             rep.reject(sig, "xdis public API (history dependence)", {"history": rc["hist"], "step": v["step"], "operation": v["op"], "after": prev,
-                                                                      "fresh": v["want"], "observed": v["got"], "host": rc["host"]},
+                                                                      "fresh": v["want"], "observed": v["got"], "host": rc["host"],
+                                                                      "containers_altered": (rc.get("altered") or [[]] * v["step"])[v["step"] - 1][:6]},
                        {"hist": rc["hist"], "host": rc["host"]})
         else:
             rep.rejections.append({"signature": sig, "api": "history", "detail": {}, "replay": {"hist": rc["hist"]}})
